@@ -58,8 +58,8 @@ package fsm
 // (never aliasing the pooled encoding buffers).
 //@ func iterOptionsForBounds
 //@   results opts, err
-//@   ensures [C12.bounds.fresh+C01+C09] err == nil ==> opts != nil && fresh(opts) && fresh(opts.LowerBound) && fresh(opts.UpperBound)
-//@   ensures [C12.bounds.low+C01+C09]   err == nil ==> isEnc(opts.LowerBound, 1, low)
+//@   ensures [C12.bounds.fresh+C01+C02+C09+C10] err == nil ==> opts != nil && fresh(opts) && fresh(opts.LowerBound) && fresh(opts.UpperBound)
+//@   ensures [C12.bounds.low+C01+C09+C10]   err == nil ==> isEnc(opts.LowerBound, 1, low)
 //@   ensures [C12.bounds.high+C01+C09]  err == nil && !isWildcard(high) ==> isEnc(opts.UpperBound, 1, high)
 //@   ensures [C12.bounds.wild+C01+C09]  err == nil && isWildcard(high) ==> isW(opts.UpperBound)
 //@   ensures [C12.bounds.lowB+C01+C02+C09]  err == nil ==> bytesOf(opts.LowerBound) == encK(1, bytesOf(low))
@@ -533,8 +533,8 @@ package fsm
 //@ func readLocalIndex
 //@   requires db != nil
 //@   requires [idx8] db.vP[bytesOf(indexKey)] ==> blen(db.vV[bytesOf(indexKey)]) == 8      // bookkeeping values are written by Commit as 8 bytes; a shorter value would panic in Uint64
-//@   ensures [C01.readidx.absent]  err == nil && !db.vP[bytesOf(indexKey)] ==> idx == 0
-//@   ensures [C01.readidx.present] err == nil && db.vP[bytesOf(indexKey)] && blen(db.vV[bytesOf(indexKey)]) == 8 ==> idx == unle64(db.vV[bytesOf(indexKey)])
+//@   ensures [C01.readidx.absent+C03+C04+C05+C07+C08]  err == nil && !db.vP[bytesOf(indexKey)] ==> idx == 0
+//@   ensures [C01.readidx.present+C03+C04+C05+C07+C08] err == nil && db.vP[bytesOf(indexKey)] && blen(db.vV[bytesOf(indexKey)]) == 8 ==> idx == unle64(db.vV[bytesOf(indexKey)])
 //@   modifies nothing
 
 // writeCommand: one user pair as the wire form of a PUT command for the table
